@@ -89,6 +89,8 @@ def hostile_cases(rnd):
     # control operators with hostile arguments
     for sch, doc in (("a = tstr .regexp \"(a*)*b\"", "\"" + "a" * 40 + "\""), ("a = tstr .regexp \"[\"", "\"x\""), ("a = tstr .size 18446744073709551615", "\"x\""), ("a = uint .size 9999999", "1"),
                      ("a = bstr .bits b\nb = &(x: 99999999999)", "1"), ("a = tstr .abnf \"a = b\"", "\"x\""), ("a = tstr .cat 5", "\"x\""), ("a = tstr .pcre \"(?=\"", "\"x\""),
+                     ("a = [1000000000000000* ()]", "[]"), ("a = [1000000000000000*2000000000000000 (? int), tstr]", "[\"x\"]"), ("a = [4294967296* (? int, ? tstr)]", "[1]"),
+                     ("a = {1000000000000* (? a: int)}", "{}"),
                      ("a = [2147483648*4294967295 int]", "[1]"), ("a = [18446744073709551615* int]", "[1]"), ("a = {* tstr => a}", "{\"a\":{\"b\":{}}}"), ("a = tstr .default 1", "1"),
                      ("a = int .plus 9223372036854775807", "1"), ("a = \"a\" .det \"b\"", "\"ab\""), ("a = tstr .b64u bstr", "\"!!\""), ("a = tstr .printf ([\"%s\", \"x\"])", "\"x\"")):
         ops.append({"op": "validate_json", "cddl": sch, "json": doc})
@@ -179,8 +181,8 @@ def run():
     res = vlib.tlc("MC_Graphs", cfg, wd, workers=8, timeout=2400, xmx="6g")
     vlib.tlc_must(res, "MC_Graphs")
     graphs = [o["rules"] for tag, o in res.lines if tag == "R"]
-    if t == "thorough" and len(graphs) > 12000:
-        graphs = rnd.sample(graphs, 12000)
+    if t == "thorough" and len(graphs) > 4000:
+        graphs = rnd.sample(graphs, 4000)
     docs_j = ["1", "[]", "[1]", "[[1],[]]", "{}", "{\"k\":1}", "\"abc\"", "[1,[2,[3]]]"]
     docs_c = ["01", "80", "8101", "a0", "a1616b01", "63616263", "828101820203"]
     ops = []
@@ -193,7 +195,7 @@ def run():
     n_graph_ops = len(ops)
     ops += depth_cases()
     ops += hostile_cases(rnd)
-    ops += random_cases(rnd, 1500 if t == "quick" else 40000, True)
+    ops += random_cases(rnd, 1500 if t == "quick" else 15000, True)
     for i, o in enumerate(ops):
         o["id"] = i
     results = vlib.execute(ops, per_case_timeout=12, rlimit_as=4 << 30)
